@@ -184,6 +184,10 @@ class Normal(ast.NodeTransformer):
 
     def visit_Call(self, n: ast.Call) -> ast.AST:
         self.generic_visit(n)
+        if isinstance(n.func, ast.Call) and attr_chain(n.func.func) in ('partial', 'functools.partial') and n.func.args:
+            # partial(f, a, k=v)(b, j=w)  is  f(a, b, k=v, j=w)
+            inner = n.func
+            return self.visit(ast.Call(func=inner.args[0], args=list(inner.args[1:]) + list(n.args), keywords=list(inner.keywords) + list(n.keywords)))
         if self.owner and isinstance(n.func, ast.Attribute) and attr_chain(n.func.value) == self.owner and n.args \
                 and isinstance(n.args[0], ast.Name) and n.args[0].id == 'self':
             return ast.Call(func=ast.Attribute(value=ast.Name(id='self', ctx=ast.Load()), attr=n.func.attr, ctx=ast.Load()), args=n.args[1:], keywords=n.keywords)
@@ -229,6 +233,73 @@ def _first_ifexp(e: ast.AST) -> T.Optional[ast.IfExp]:
             continue
         stack.extend(reversed(list(ast.iter_child_nodes(n))))
     return None
+
+
+def unroll_constant_loops(fn: T.Any) -> T.Any:
+    """Normal form: a `for` over a constant display of (tuples of) expressions - written in place or bound once to a local -
+    whose body has no break/continue/else is the sequence of its bodies, the loop variables replaced by the items
+    (`for regex, handler in ((A, f), (B, g)): ...`  is  `...[A, f]; ...[B, g]`).  Returns a rewritten copy (or fn itself)."""
+    singles: T.Dict[str, ast.AST] = {}
+    stores: T.Dict[str, int] = {}
+    for n in ast.walk(fn):
+        if isinstance(n, ast.Name) and isinstance(n.ctx, ast.Store):
+            stores[n.id] = stores.get(n.id, 0) + 1
+    for n in ast.walk(fn):
+        tgt = n.targets[0] if isinstance(n, ast.Assign) and len(n.targets) == 1 else (n.target if isinstance(n, ast.AnnAssign) else None)
+        if isinstance(tgt, ast.Name) and stores.get(tgt.id) == 1 and isinstance(getattr(n, 'value', None), (ast.Tuple, ast.List)):
+            singles[tgt.id] = n.value      # type: ignore[union-attr]
+    changed = [False]
+
+    def own_jumps(body: T.List[ast.stmt]) -> bool:
+        stack: T.List[ast.AST] = list(body)
+        while stack:
+            x = stack.pop()
+            if isinstance(x, (ast.Break, ast.Continue)):
+                return True
+            if isinstance(x, (ast.For, ast.AsyncFor, ast.While, ast.FunctionDef, ast.AsyncFunctionDef, ast.Lambda, ast.ClassDef)):
+                continue
+            stack.extend(ast.iter_child_nodes(x))
+        return False
+
+    class Unroll(ast.NodeTransformer):
+        def _block(self, body: T.List[ast.stmt]) -> T.List[ast.stmt]:
+            out: T.List[ast.stmt] = []
+            for st in body:
+                st2 = self.visit(st)
+                if isinstance(st2, list):
+                    out.extend(st2)
+                else:
+                    out.append(st2)
+            return out
+
+        def visit_For(self, n: ast.For) -> T.Any:
+            self.generic_visit(n)
+            it = n.iter
+            if isinstance(it, ast.Name) and it.id in singles:
+                it = singles[it.id]
+            if not isinstance(it, (ast.Tuple, ast.List)) or n.orelse or own_jumps(n.body) or len(it.elts) > 12 or any(isinstance(e, ast.Starred) for e in it.elts):
+                return n
+            names: T.List[str]
+            if isinstance(n.target, ast.Name):
+                names = [n.target.id]
+            elif isinstance(n.target, (ast.Tuple, ast.List)) and all(isinstance(t, ast.Name) for t in n.target.elts):
+                names = [t.id for t in n.target.elts]       # type: ignore[attr-defined]
+            else:
+                return n
+            out: T.List[ast.stmt] = []
+            for item in it.elts:
+                vals = [item] if isinstance(n.target, ast.Name) else (list(item.elts) if isinstance(item, (ast.Tuple, ast.List)) and len(item.elts) == len(names) else None)
+                if vals is None:
+                    return n
+                if any(stores.get(nm, 0) > 1 for nm in names):
+                    return n        # the loop variable is also assigned elsewhere
+                out.extend(_Sub(dict(zip(names, vals)), {}).visit(copy.deepcopy(b)) for b in n.body)
+            changed[0] = True
+            return out
+    new = Unroll().visit(copy.deepcopy(fn))
+    if not changed[0]:
+        return fn
+    return ast.fix_missing_locations(new)
 
 
 def _alts(e: ast.AST, val: bool) -> T.List[T.List[T.Tuple[ast.AST, bool]]]:
